@@ -370,6 +370,17 @@ def mc_spec(draw, max_steps=25, names=None):
             variants[key] = pairs
         spec['variants'] = variants
         spec['gen_labels'] = sorted(g.labels | {'variants'})
+    if draw(st.integers(0, 3)) == 0:
+        # controls declared by hand inside the function (the documented
+        # Control.add_name / AudioControl.add_name constructors), after the
+        # function's own parameters
+        spec['manual'] = [
+            [nm, draw(st.sampled_from(['kr', 'kr', 'ar'])),
+             draw(st.sampled_from([0.0, 0.25, 1.0, 440.0]))]
+            for nm in draw(st.lists(st.sampled_from(['hgate', 'hmod', 'hmx']),
+                                    min_size=1, max_size=2, unique=True))]
+        spec['gen_labels'] = sorted(set(spec['gen_labels'])
+                                    | {'manual_controls'})
     return spec
 
 
@@ -404,6 +415,11 @@ class Builder:
         ops = {'+': op.add, '-': op.sub, '*': op.mul, '/': op.truediv,
                '<': op.lt, 'pow': op.pow}
         vals = []
+        for j, (nm, rate, default) in enumerate(self.spec.get('manual', [])):
+            cls = U['AudioControl'] if rate == 'ar' else U['Control']
+            cls.add_name(nm)
+            ctl = getattr(cls, rate)(default)
+            getattr(U['Out'], rate)(100 + j, ctl)
         for i, n in enumerate(self.spec['nodes']):
             if self.fail_at == i:
                 raise self.fail_exc
